@@ -15,6 +15,7 @@ the documented-irrelevant family (harness-owned catalogue, frozen lists); string
 equality of the two results.
 """
 import itertools
+import re
 from urllib.parse import quote
 
 from hypothesis import strategies as st
@@ -92,9 +93,26 @@ KEPT = [["id", "42"], ["page", "2"], ["q", "a b"], ["b", "2"], ["a", "1"], ["a",
 ROUTING = ["/route/1", "!/tweet", "!hashbang/x", "/a?b=c"]
 
 
+REDIRECT_BASES = [
+    ("www.youtube.com", ["redirect"], [["q", "example.com%2Fa"]]),
+    ("www.youtube.com", ["redirect"], [["event", "video"], ["q", "https%3A%2F%2Fexample.com%2Fa%3Fid%3D4"]]),
+    ("www.google.com", ["url"], [["q", "http://t.com/a"], ["sa", "D"]]),
+    ("site.com", ["out"], [["url", "http%3A%2F%2Ftarget.org%2Fp"]]),
+    ("site.com", ["login"], [["id", "7"], ["next", "/rel/path"]]),
+    ("l.facebook.com", ["l.php"], [["u", "https%3A%2F%2Ftarget.org%2Fp%3Fx%3D1"], ["h", "AT0"]]),
+    ("x.cdn.ampproject.org", ["c", "s", "example.com", "a"], None),
+    ("bc.marfeel.com", ["www.site.com", "x"], None),
+]
+
+
 @st.composite
-def clean_bases(draw, platform=False):
+def clean_bases(draw, platform=False, redirect=False):
     s = {"scheme_form": "explicit", "scheme": draw(st.sampled_from(["http", "https"])), "user": None, "password": None}
+    if redirect:
+        # the outer URL of an inferred redirection: every documented-irrelevant variation of the *outer* URL must leave the result alone
+        host, segs, query = draw(st.sampled_from(REDIRECT_BASES))
+        s.update(host=host, segments=list(segs), trailing_slash=False, query=[list(i) for i in query] if query else None, fragment=None, port=None)
+        return s
     if platform:
         s["host"] = draw(st.sampled_from(["facebook.com", "youtube.com", "youtu.be"]))
         s["segments"] = draw(st.sampled_from([["zuck", "posts", "10158"], ["groups", "123456789", "permalink", "55"], ["zuck"], ["watch"], ["dQw4w9WgXcQ"],
@@ -116,14 +134,33 @@ def clean_bases(draw, platform=False):
     return s
 
 
+_CTRL = re.compile(r"[\x00-\x1f\x7f-\x9f]")
+
+
+def _ctrl_inside_redirect(case):
+    """the variant carries a control character and, once cleaned, is a URL from which a redirection is inferred"""
+    from ural import infer_redirection
+    v = case.get("variant", "")
+    if not _CTRL.search(v.strip(" \t\r\n\x0b\x0c")):   # ASCII whitespace at the edges is stripped by every parser; anything else counts (U+0085 too)
+        return False
+    cleaned = _CTRL.sub("", v).strip()
+    return infer_redirection(cleaned) != cleaned
+
+
+def _neutralise_ctrl(case):
+    return dict(case, variant=_CTRL.sub("", case["variant"]).strip())
+
+
+TRIGGERS = {"control-character-inside-a-redirecting-url": (_ctrl_inside_redirect, _neutralise_ctrl)}
+
 STRUCT_T = list(T.IRRELEVANT)
 PLATFORM_SAFE = ["scheme", "userinfo", "default-port", "host-case", "tracking-items", "permute-query", "hex-case"]
 
 
 @st.composite
-def _pairs(draw, tier, kwargs, platform=False):
-    s = draw(clean_bases(platform=platform))
-    pool = PLATFORM_SAFE if platform else STRUCT_T
+def _pairs(draw, tier, kwargs, platform=False, redirect=False):
+    s = draw(clean_bases(platform=platform, redirect=redirect))
+    pool = PLATFORM_SAFE if (platform or redirect) else STRUCT_T
     spool = ["whitespace", "control-chars", "amp-entity"]
     names = draw(st.lists(st.sampled_from(pool + spool), min_size=1, max_size=4, unique=True))
     names = [n for n in names if n in pool] + [n for n in names if n in spool]
@@ -146,7 +183,7 @@ def _pairs(draw, tier, kwargs, platform=False):
 
 def _strategy(tier):
     return st.one_of(_pairs(tier, {}), _pairs(tier, {}), _pairs(tier, {"quoted": True}), _pairs(tier, {"platform_aware": True}),
-                     _pairs(tier, {"platform_aware": True}, platform=True))
+                     _pairs(tier, {"platform_aware": True}, platform=True), _pairs(tier, {}, redirect=True))
 
 
 def _nt(case):
